@@ -228,9 +228,59 @@ func gen(r *vh.Rand, tier string, n int, emit func(vh.Case)) {
 			nops = 8 + cr.Intn(60)
 		}
 		external := cr.Chance(1, 3) // cases with records written to the routing store by someone else
+		// With a small cache (evictions) the LRU order depends on a benign race inside resolveAsync
+		// (hop i's cache fill vs hop i+1's lookup run in different goroutines). Outputs are
+		// independent of that order as long as every cached value agrees with the routing store /
+		// DNS table, so these cases contain no source of legitimately stale entries: no external
+		// puts, DNS entries set up front only, no negative publish TTL (record TTL 0, cached 1 min).
+		small := cache > 0 && cache < 8
+		pubTTLs := ttlChoices
+		if small {
+			external = false
+			pubTTLs = []string{"0", "1", "1", "2", "3", "5", "10", "-"}
+			for j, m := 0, cr.Intn(4); j < m; j++ {
+				c.Ops = append(c.Ops, fmt.Sprintf("dns %d %s %s", cr.Intn(nDNS), genTarget(cr, nk), vh.Pick(cr, ttlChoices[:7])))
+			}
+		}
+		if cr.Chance(1, 4) { // structured chain: node0 -> node1 -> … -> /ipfs/cid (or back to node0)
+			nodes := []string{"N0.0", "N1.1", "N2.2", "N3.0", "N4.1", "D0", "D1", "D2"}
+			for a := len(nodes) - 1; a > 0; a-- {
+				b := cr.Intn(a + 1)
+				nodes[a], nodes[b] = nodes[b], nodes[a]
+			}
+			l := 1 + cr.Intn(6)
+			final := fmt.Sprintf("C%d", cr.Intn(nCids)) + genRemainder(cr)
+			if cr.Chance(1, 5) {
+				final = nodes[cr.Intn(l)] + genRemainder(cr) // a cycle
+			}
+			for h := l - 1; h >= 0; h-- {
+				tgt := final
+				if h < l-1 {
+					tgt = nodes[h+1] + genRemainder(cr)
+				}
+				ttl := vh.Pick(cr, pubTTLs[:7])
+				if nodes[h][0] == 'D' {
+					c.Ops = append(c.Ops, fmt.Sprintf("dns %s %s %s", nodes[h][1:], tgt, ttl))
+				} else if !small && cr.Chance(1, 2) {
+					c.Ops = append(c.Ops, fmt.Sprintf("put %s %s %s %d", nodes[h][1:2], tgt, ttl, cr.Intn(4)))
+				} else {
+					c.Ops = append(c.Ops, fmt.Sprintf("publish %s %s %s -", nodes[h][1:2], tgt, ttl))
+				}
+			}
+			for _, d := range []string{"1", "2", "3", "4", "5", "6", "7", "-"} {
+				if cr.Chance(2, 3) {
+					c.Ops = append(c.Ops, fmt.Sprintf("resolve %s %s", nodes[0]+genRemainder(cr), d))
+				}
+			}
+			nk = nKeys
+			nops /= 2
+		}
 		lastPub := -1
 		for j := 0; j < nops; j++ {
 			k := cr.Intn(100)
+			if small && k >= 38 && k < 44 {
+				k = 50
+			}
 			switch {
 			case k < 34:
 				key := cr.Intn(nk)
@@ -241,7 +291,7 @@ func gen(r *vh.Rand, tier string, n int, emit func(vh.Case)) {
 						seq = strconv.FormatUint(vh.Pick(cr, bigSeqs), 10)
 					}
 				}
-				c.Ops = append(c.Ops, fmt.Sprintf("publish %d %s %s %s", key, genTarget(cr, nk), vh.Pick(cr, ttlChoices), seq))
+				c.Ops = append(c.Ops, fmt.Sprintf("publish %d %s %s %s", key, genTarget(cr, nk), vh.Pick(cr, pubTTLs), seq))
 				lastPub = key
 			case k < 38 && external:
 				c.Ops = append(c.Ops, fmt.Sprintf("put %d %s %s %d", cr.Intn(nk), genTarget(cr, nk), vh.Pick(cr, ttlChoices[:8]), cr.Intn(6)))
@@ -615,4 +665,4 @@ func (tr *truth) walk(tok string, depth uint, store *memStore) string {
 	}
 }
 
-func main() { vh.Main(vh.Config{Gen: gen, Exec: exec, CaseTimeout: 40 * time.Second}) }
+func main() { vh.Main(vh.Config{Gen: gen, Exec: exec, CaseTimeout: 10 * time.Second}) }
